@@ -111,7 +111,10 @@ class Resolver:
             spec = PARAM_TYPES.get((f.qual, name))
             if spec is not None:
                 return self._table_type(spec)
-            return None
+            dyn = getattr(self, "dyn_param", None)
+            if dyn and (f.qual, name) in dyn:
+                return dyn[(f.qual, name)]
+            return self._isinstance_type(t, fa)
         if k in ("global", "free"):
             r = self.p.resolve_expr_static(f.module, ast.Name(id=t.a[0]), f)
             return self._sym_type(r)
@@ -176,6 +179,56 @@ class Resolver:
         if k == "upd":
             return self.typeof(t.a[0], fa, depth + 1)
         return None
+
+    def isinstance_types_at(self, fa, n):
+        """{param name: ("inst", classes)} from the `isinstance(param, RepoClass)` facts that dominate cfg node n"""
+        out = {}
+        try:
+            facts = list(fa.cfg.facts_at(n))
+        except Exception:
+            return out
+        for test, truth in facts:
+            if not truth or test.kind != "test" or not isinstance(test.ast, ast.Call):
+                continue
+            call = test.ast
+            if not (isinstance(call.func, ast.Name) and call.func.id == "isinstance" and len(call.args) == 2 and isinstance(call.args[0], ast.Name)
+                    and isinstance(call.args[1], (ast.Name, ast.Attribute))):
+                continue
+            r = self.p.resolve_expr_static(fa.func.module, call.args[1], fa.func)
+            if isinstance(r, Class):
+                out[call.args[0].id] = ("inst", frozenset([r] + list(self.p.subclasses(r))))
+        return out
+
+    def _isinstance_type(self, t, fa):
+        """a parameter used under a dominating `isinstance(param, RepoClass)` fact is an instance of that class"""
+        if t.node is None:
+            return None
+        try:
+            n = fa.node_of(t.node)
+        except Exception:
+            n = None
+        if n is None:
+            return None
+        key = ("isinst", fa.func.qual, n.id, t.a[0])
+        c = self.ctx._cache.setdefault("isinst", {})
+        if key in c:
+            return c[key]
+        out = None
+        try:
+            for test, truth in fa.cfg.facts_at(n):
+                if not truth or test.kind != "test" or not isinstance(test.ast, ast.Call):
+                    continue
+                call = test.ast
+                if not (isinstance(call.func, ast.Name) and call.func.id == "isinstance" and len(call.args) == 2 and isinstance(call.args[0], ast.Name)
+                        and call.args[0].id == t.a[0] and isinstance(call.args[1], (ast.Name, ast.Attribute))):
+                    continue
+                r = self.p.resolve_expr_static(fa.func.module, call.args[1], fa.func)
+                if isinstance(r, Class):
+                    out = ("inst", frozenset([r] + list(self.p.subclasses(r))))
+        except Exception:
+            out = None
+        c[key] = out
+        return out
 
     def _sym_type(self, r):
         if isinstance(r, Class):
